@@ -284,3 +284,147 @@ def c05(run, selftest=True):
         "one real Accumulator and every result compared (values, Err contents and order, panic/no panic and lost-count, survival of unwinding); "
         "longer random walks likewise; random real histories are validated as behaviours of the spec with the property's clauses as invariants. "
         "A case is one history.")
+
+
+# =====================================================================================================
+# Derived receivers: C01 C02 C03 C07 C08 C09 (shared machine Receiver.tla / ReceiverProps.tla)
+# =====================================================================================================
+
+VHC = os.path.join(vlib.HARNESS, "target", "debug", "vhc")
+
+RECV_CFG = """SPECIFICATION Spec
+CONSTANTS
+  ForeignPaths = {"doc", "keep"}
+  EMIT = TRUE
+INVARIANTS NoPanic C02_OneToOne C01_Mapping C03_Spans C08_Forward C08_Merge BigStepAgrees EmitDone
+CHECK_DEADLOCK FALSE
+"""
+
+
+def gen_corpus(run, focus, tier=None):
+    """Generate the declaration corpus for this seed/tier (ndjson for TLC, Rust source for the harness)."""
+    nd = run.path("corpus_%s.ndjson" % focus)
+    rs = os.path.join(vlib.HARNESS, "gen", "corpus_gen.rs")
+    os.makedirs(os.path.dirname(rs), exist_ok=True)
+    import subprocess
+    p = subprocess.run(["python3", os.path.join(vlib.VERIF, "tools", "gen_corpus.py"), "--seed", str(vlib.seed()),
+                        "--tier", tier or run.tier, "--focus", focus, "--ndjson", nd, "--rs", rs],
+                       stdout=subprocess.PIPE, stderr=subprocess.PIPE, text=True)
+    if p.returncode != 0:
+        raise ToolError("gen_corpus failed: " + p.stderr[-2000:])
+    info = json.loads(p.stdout.strip().splitlines()[-1])
+    run.extra["corpus_declarations"] = info["decls"]
+    run.extra["corpus_roots_" + focus] = info["roots"]
+    return nd
+
+
+def receiver_stage(run, focus, classes, selftest, what):
+    """TLC over the focus corpus (all invariants), replay every behaviour on the derived receivers,
+    keep the property-level mismatches whose class is in `classes`."""
+    nd = gen_corpus(run, focus)
+    run.build()
+    res = run.tlc("MC_Receiver", RECV_CFG, "recv_" + focus, workers=8, env={"CORPUS": nd}, timeout=3000)
+    if not res["ok"]:
+        # the operational machine disagrees with the declarative reading of the property on some input:
+        # the machine is bound to the code by replay, so this is reported with TLC's own counterexample
+        tail = run.tlc_tail(res, 60)
+        raise ToolError("TLC: the receiver machine violates a declarative invariant (%s):\n%s" % (what, tail[-3000:]))
+    r = run.vh("replay", res["out"], binary=VHC, timeout=3000)
+    keep = [m for m in r.get("prop", []) if set(m["classes"]) & set(classes)]
+    dropped = r.get("prop_mismatch", 0) - len(keep)
+    r2 = dict(r, prop=keep, prop_mismatch=len(keep))
+    run.add_replay_result("receiver/" + focus, r2)
+    if dropped > 0:
+        run.notes.append("%d replayed cases mismatched in classes other than %s (reported by the properties that own them): %s" % (
+            dropped, sorted(classes), json.dumps(r.get("by_class"))))
+    run.extra["by_class_" + focus] = r.get("by_class", {})
+    if selftest:
+        def flip(case):
+            e = case["expect"]
+            if e["clean"] and e["v_decl"] and isinstance(e["v_decl"][0], str):
+                e["v_decl"][0] = e["v_decl"][0] + "~"
+                return True
+            return False
+        selftest_replay_bin(run, VHC, res["out"], flip, "alter one expected field value")
+
+        def drop(case):
+            e = case["expect"]
+            if not e["clean"] and len(e["mistakes"]) >= 2:
+                e["mistakes"].pop()
+                return True
+            return False
+        selftest_replay_bin(run, VHC, res["out"], drop, "drop one expected mistake")
+    os.remove(res["out"])
+    return r
+
+
+def selftest_replay_bin(run, binary, tlc_out, mutate, what):
+    tag = '<<"REPLAY", '
+    first = None
+    n = 0
+    with open(tlc_out, errors="replace") as f:
+        for line in f:
+            if line.startswith(tag):
+                n += 1
+                case = json.loads(json.loads(line.strip()[len(tag):-2]))
+                if mutate(case):
+                    first = case
+                    break
+                if n > 20000:
+                    break
+    if first is None:
+        raise ToolError("selftest(%s): no replay line suitable for corruption" % what)
+    nd = run.path("selftest.ndjson")
+    with open(nd, "w") as f:
+        f.write(json.dumps(first) + "\n")
+    r = run.vh("replay", nd, binary=binary)
+    if r.get("prop_mismatch", 0) == 0:
+        raise ToolError("selftest(%s): a corrupted expectation was NOT detected by the replay harness" % what)
+    run.notes.append("selftest replay-corruption (%s): detected" % what)
+
+
+RECV_ASSUME = [
+    "field types of corpus receivers are the harness's symbolic types (Val, u8, bool, Option/Vec<Val>, HashMap<String, Val>, nested corpus receivers); user callables are symbolic wrappers",
+    "inputs are rendered to source text and parsed with syn (proc-macro2 fallback spans with line/column)",
+    "error leaves are recognised through the text of darling's public constructors, evaluated at run time",
+]
+RECV_RULE = ("declarations: the generated corpus (every single field option, pairs, container options x 7 case rules, nesting to depth 3, "
+             "enums, maps, flatten chains, five element-level traits, plus seeded random ones); inputs: every item sequence over each root's "
+             "alphabet (each addressable name in each accepted and rejected form, an unknown name, a near miss, a literal) up to the root's bound, "
+             "for element-level roots every split into attributes interleaved with bare / name-value / non-meta / unrelated attributes. "
+             "TLC checks the machine against the declarative Mistakes/Expected on every behaviour; each behaviour is then run through the real derived "
+             "parser. A case is one (declaration, input) pair; all are distinct.")
+
+
+def recv_plan(run, selftest, focuses, classes, what):
+    for fo in focuses:
+        receiver_stage(run, fo, classes, selftest and fo == focuses[0], what)
+    run.assumptions = RECV_ASSUME
+    return run.finish("model_checking", RECV_RULE)
+
+
+@plan("C01")
+def c01(run, selftest=True):
+    return recv_plan(run, selftest, ["clean", "struct"], {"value"}, "C01 field mapping")
+
+
+@plan("C02")
+def c02(run, selftest=True):
+    return recv_plan(run, selftest, ["struct", "enum"], {"leaves"}, "C02 one error per mistake")
+
+
+@plan("C03")
+def c03(run, selftest=True):
+    run.build()
+    erralg_stage(run, False)
+    return recv_plan(run, selftest, ["struct", "enum"], {"span"}, "C03 spans")
+
+
+@plan("C08")
+def c08(run, selftest=True):
+    return recv_plan(run, selftest, ["element"], {"value", "leaves", "fwd", "panic"}, "C08 attribute selection / merging / forwarding")
+
+
+@plan("C09")
+def c09(run, selftest=True):
+    return recv_plan(run, selftest, ["enum"], {"value", "leaves", "panic"}, "C09 enum receivers")
